@@ -6,7 +6,7 @@ use nom::{
     bytes::complete::{tag, tag_no_case},
     character::complete::{digit1, hex_digit1},
     combinator::{map, map_res, not, opt, peek, recognize},
-    multi::many0,
+    multi::{many0, many0_count},
     sequence::{delimited, preceded, tuple},
 };
 
@@ -99,8 +99,10 @@ impl Parser for Constant {
 
 impl Parser for IntConstant {
     fn parse(input: &str) -> IResult<&str, IntConstant> {
-        alt((
-            preceded(tag("-"), map(IntConstant::parse, |d| IntConstant(-d.0))),
+        // the minus signs are counted in a loop: recursing once per sign let a long run
+        // of them exhaust the stack
+        let (input, minus) = many0_count(tag("-"))(input)?;
+        let (input, v) = alt((
             preceded(
                 tag("0x"),
                 map_res(hex_digit1, |d| i64::from_str_radix(d, 16).map(IntConstant)),
@@ -109,7 +111,8 @@ impl Parser for IntConstant {
                 let d = FromStr::from_str(d)?;
                 Ok::<_, ParseIntError>(IntConstant(d))
             }),
-        ))(input)
+        ))(input)?;
+        Ok((input, if minus % 2 == 1 { IntConstant(-v.0) } else { v }))
     }
 }
 
